@@ -10,14 +10,23 @@ import (
 type (
 	Pool      = verifrt.Pool
 	Mutex     = verifrt.Mutex
-	RWMutex   = sync.RWMutex
-	Once      = sync.Once
+	RWMutex   = verifrt.RWMutex
+	Once      = verifrt.Once
+	Map       = verifrt.Map
 	WaitGroup = sync.WaitGroup
-	Map       = sync.Map
 	Cond      = sync.Cond
 	Locker    = sync.Locker
 )
 
 func NewCond(l Locker) *Cond { return sync.NewCond(l) }
 
-func OnceFunc(f func()) func() { return sync.OnceFunc(f) }
+func OnceFunc(f func()) func() {
+	var o Once
+	return func() { o.Do(f) }
+}
+
+func OnceValue[T any](f func() T) func() T {
+	var o Once
+	var v T
+	return func() T { o.Do(func() { v = f() }); return v }
+}
